@@ -33,6 +33,8 @@ check("C01", "reads return the latest write through every layer", [
        "<=2 steps over put/tx/batch/flush, 2 keys", "<=3 steps"),
     ob("VerifC01_ValueShapes", "pkg/engine", "empty, nil, 1- and 2-byte values through memtable, flush and reopen read back as found",
        "<=3 steps over put(4 value shapes)/flush/reopen, 2 keys", "<=4 steps"),
+    ob("VerifC01_LargeValues", "pkg/engine", "values at the log's fragmenting boundary (+-1) and a 64 KiB value, mixed with small puts, flush and reopen: each key reads back exactly its latest put",
+       "<=2 steps, 2 keys, contents concrete pattern with symbolic first/last byte", "<=3 steps", q={"budget_s": 300}),
     ob("VerifC01_ReadFromTables", "pkg/engine", "programs of put+flush / delete+flush / retire-flushed-logs+reopen steps: reads are served by the SSTables and their load order, not by replayed memtables",
        "2..5 steps, 2 keys", "2..7 steps", q={"budget_s": 400}),
     ob("VerifC01_StorageProgram", "pkg/engine/storage", "storage.Manager level: put/delete/flush/reopen programs, Get vs. model",
@@ -69,6 +71,10 @@ check("C05", "scans: exactly the live keys, once, in order, within bounds", [
     ob("VerifC05_MergeNewestWins", "pkg/common/iterator/composite", "HierarchicalIterator over two sorted sources with tombstones: SeekToFirst/Next*, Seek(t)", "<=2 keys per source, 1-byte keys"),
     ob("VerifC05_BoundedExact", "pkg/common/iterator/bounded", "BoundedIterator with optional symbolic bounds: iteration, Seek(t), SeekToLast", "<=3 keys"),
     ob("VerifC05_FilteredExact", "pkg/common/iterator/filtered", "prefix/suffix filtered iteration incl. Seek/SeekToLast", "<=3 two-byte keys"),
+    ob("VerifC05_MemtableAdapter", "pkg/memtable", "IteratorAdapter over a memtable holding several versions per key: SeekToLast / Seek(t) land on the newest version of the right key; forward iteration yields every version, keys ascending, newer first",
+       "<=3 puts/deletes over 2 keys"),
+    ob("VerifC05_MemtableScanSurvivesWrites", "pkg/memtable", "a scan over the active memtable interleaved operation by operation with another client's writes (anywhere relative to the scan position): strictly ascending, duplicate-free, yields every entry that existed before it started",
+       "<=3 pre-existing entries, <=2 interleaved writes at any of the scan's steps"),
     ob("VerifC05_EngineScan", "pkg/engine/storage", "storage.Manager full and range scans after a symbolic program", "<=3 steps, 3 keys, MemTableSize in {1, default}", "<=4 steps", t={}),
 ], [SIMFS, CLOCK, HASH, BLOOM, RAND, LOG, TIERA], [])
 
@@ -168,8 +174,14 @@ check("C19", "the network API behaves like the embedded API", [
 ], [SIMFS, CLOCK, HASH, BLOOM, JSON, LOG], ["wire encoding", "interceptors", "TLS"])
 
 check("C20", "configuration is validated and persists", [
-    ob("VerifC20_Validate", "pkg/config", "Config.Validate with every field symbolic (float64 ratio as an SMT FP term) equals the documented predicate", "all fields symbolic"),
-], [JSON, LOG], ["byte-exact JSON round trip"])
+    ob("VerifC20_Validate", "pkg/config", "Config.Validate with every field symbolic (float64 ratio as an SMT FP term) equals the documented predicate", "all 25 fields symbolic (64-bit integers, strings empty/non-empty, float as IEEE-754 bit pattern incl. NaN/Inf)"),
+    ob("VerifC20_SaveLoad", "pkg/config", "SaveManifest with symbolic validity-relevant fields, with or without an existing manifest: invalid => nothing written, existing manifest untouched, no temp file; valid => stored and loaded back unchanged",
+       "5 symbolic fields + sync mode", reach=("rejected", "stored")),
+    ob("VerifC20_SaveCrashAtomic", "pkg/config", "process death / power loss at any file-system step of storing a new configuration over an old one: afterwards the manifest is the old or the complete new configuration",
+       "every crash point incl. after the last step; torn write every length; both crash models"),
+    ob("VerifC20_OpenWithStoredConfig", "pkg/engine", "database created with a non-default configuration; manifest intact / cut at every byte / garbage / invalid configuration / removed: intact => reopened with exactly the stored configuration and its data; cut, unreadable or invalid => open fails, creates no log/table file, does not overwrite the manifest; missing => defaults",
+       "5 manifest conditions, every cut offset of the stored text"),
+], [SIMFS, CLOCK, HASH, BLOOM, JSON, LOG, TIERA], ["that a valid configuration round-trips through real JSON text byte-exactly (encoding/json is reflection-driven and not encoded; the stub states the round trip as identity)", "alterations of the stored text other than truncation"])
 
 check("C18", "memtable ordered multi-version map", [
     ob("VerifC18_TableGetIterate", "pkg/memtable", "MemTable.Put/Delete/Get/NewIterator/SetImmutable: Get returns an entry of maximal sequence number (marker = found-but-deleted); iteration ascending by key, newer versions first, each entry once; an immutable table ignores writes",
